@@ -9,23 +9,25 @@ LEVEL = "proof"
 LEVEL_TEXT = ("Lean 4 theorems for every ragged shape (empty rows first, last, consecutive, all rows empty, zero rows) and every segment "
               "reduction red with red [] = identity: the model of _reduce (ufunc.reduceat on row starts, trimming of trailing empty "
               "rows via searchsorted, padding, identity patch-up) returns red of every row; without an identity (max/min) it returns "
-              "red of every NON-EMPTY row and one entry per row. The numeric side (what numpy's reduce gives for a row of a given "
-              "dtype, result dtypes, mean/argmax/argmin/axis=None/keepdims wrappers) is decided by the correspondence: the model "
+              "red of every NON-EMPTY row and one entry per row. argmax / argmin (column-broadcast comparison with the row extrema, "
+              "np.nonzero, first hit per row via np.unique(return_index), scatter into zeros) return the FIRST position of the row's "
+              "maximum / minimum for every non-empty row and 0 for an empty one (C05_first_position_of, C05_argmax, C05_argmin). The numeric side (what numpy's reduce gives for a row of a given "
+              "dtype, result dtypes, mean/axis=None/keepdims wrappers, argmax/argmin on float cells) is decided by the correspondence: the model "
               "returns the cells of each segment, numpy reduces them, compared with the implementation over shapes x reductions x dtypes.")
 LEVEL_NOTE = ("Trusted: Lean kernel (+ standard axioms); hand model of _reduce (tied by correspondence); numpy reduceat on a non-empty "
               "segment equals reduce on a copy of the segment for integer/bool dtypes and for max/min (float add is NOT bit-identical: "
-              "known finding F05c, judged with a relative-error bound); wrappers (axis=None, keepdims, mean, argmax/argmin) are "
+              "known finding F05c, judged with a relative-error bound); wrappers (axis=None, keepdims, mean) are "
               "correspondence-only.")
 TECHNIQUE = "Lean 4 proof of reduceat+patch-up model = map red rows; numpy-evaluated correspondence"
 DESIGN_REF = "7"
-LEAN_MODULES = ["NpsVerif.Props.C05"]
+LEAN_MODULES = ["NpsVerif.Props.C05", "NpsVerif.Props.C05B"]
 KERNELS = ()
 RULE = ("cases = ragged shape (exhaustive <=4 rows x <=2 cells quick, <=4x3 thorough, + random with many empty rows) x reduction "
         "(sum prod any all max min mean argmax argmin; np.<ufunc>.reduce for add multiply logical_and/or/xor bitwise_and/or/xor "
         "maximum minimum; np.sum etc.) x axis (-1, 1, None) x keepdims x dtype; distinct = distinct (lengths, reduction, axis, "
         "keepdims, dtype); non-trivial = at least one non-empty row")
 EXHAUSTIVE = {"quick": False, "thorough": False}
-CORRESPONDENCE_ONLY = ["mean / argmax / argmin", "axis=None and keepdims wrappers", "result dtypes", "float rounding"]
+CORRESPONDENCE_ONLY = ["mean; argmax / argmin on float cells", "axis=None and keepdims wrappers", "result dtypes", "float rounding"]
 ASSUMPTIONS = ["reduceat on a non-empty segment = reduce of that segment for int/bool dtypes and for maximum/minimum"]
 
 METHODS = ["sum", "prod", "any", "all", "max", "min", "mean", "argmax", "argmin"]
@@ -170,7 +172,18 @@ def oracle(p):
     return _expect_from_rows(p, rows)
 
 
+def _int_rows(p):
+    vals = _vals(p)
+    rows, k = [], 0
+    for l in p["lens"]:
+        rows.append([int(v) for v in vals[k:k + l]]); k += l
+    return rows
+
+
 def lean_request(p):
+    if p["name"] in ("argmax", "argmin") and p["axis"] is not None and np.dtype(p["dtype"]).kind in "iu":
+        # integer cells go to the model as they are: argmax / argmin compare values
+        return {"op": "C05.argred", "rows": _int_rows(p), "min": p["name"] == "argmin"}
     if p["axis"] is None or p["name"] in ("mean", "argmax", "argmin"):
         return None
     return {"op": "C05.reduce", "rows": gens.rows_of_ids(p["lens"]), "identity": p["name"] not in NO_IDENTITY}
@@ -178,6 +191,12 @@ def lean_request(p):
 
 def decode_lean(p, resp):
     vals = _vals(p)
+    if p["name"] in ("argmax", "argmin"):
+        def cv(j):
+            if isinstance(j, dict) and j.get("refuse"):
+                return refuse()
+            return {"k": "obs", "values": {"k": "list", "v": _masked([np.int64(x) for x in j], p["lens"], True)}}
+        return cv(resp["L"]), cv(resp["S"])
     def conv(j, is_model):
         if isinstance(j, dict) and j.get("refuse"):
             return refuse()
